@@ -87,7 +87,7 @@ def hostile(case):
         j = rng.randrange(len(b.bond_descriptors))
         mode = rng.choice(["asis", "order2", "order3", "mismatch-order", "oor-self", "oor-other", "force-compat"])
         da, db = a.bond_descriptors[i], b.bond_descriptors[j]
-        if mode == "force-compat":
+        if mode == "force-compat" or (mode in ("order2", "order3") and rng.random() < 0.7):
             db.descriptor = {"$": "$", "<": ">", ">": "<"}[da.descriptor]
             db.descriptor_id = da.descriptor_id
         if mode in ("order2", "order3"):
